@@ -4,10 +4,10 @@ Require Import C16_Model C16_Inv.
 Import ListNotations.
 Open Scope Z_scope.
 
-Definition reachable (m c0 : Z) (t : st) : Prop := exists ls, run (init m c0) ls = Some t.
+Definition reachable (m c0 : Z) (t : st) : Prop := exists r ls, run (init m c0 r) ls = Some t.
 
 Lemma reach_ginv m c0 t : reachable m c0 t -> GInv c0 t /\ maxc t = m.
-Proof. intros [ls H]. destruct (run_ginv c0 ls _ _ (init_ginv m c0) H) as [G M]. split; [exact G|exact M]. Qed.
+Proof. intros (r & ls & H). destruct (run_ginv c0 ls _ _ (init_ginv m c0 r) H) as [G M]. split; [exact G|exact M]. Qed.
 
 Lemma reach_sinv m c0 t i s : reachable m c0 t -> nth_error (ss t) i = Some s -> started s = true -> SInv s.
 Proof.
@@ -71,24 +71,24 @@ Proof.
 Qed.
 
 (* the count never exceeds the configured maximum when sessions come through the accept loop *)
-Theorem count_le_max m t : (exists ls, run (init m 0) ls = Some t /\ forallb not_start ls = true) -> 0 <= cnt t <= Z.max 0 m.
+Theorem count_le_max m t : (exists r ls, run (init m 0 r) ls = Some t /\ forallb not_start ls = true) -> 0 <= cnt t <= Z.max 0 m.
 Proof.
-  intros (ls & H & Hn). destruct (run_ginv 0 ls _ _ (init_ginv m 0) H) as [G M]. split.
+  intros (r & ls & H & Hn). destruct (run_ginv 0 ls _ _ (init_ginv m 0 r) H) as [G M]. split.
   - rewrite (g_cnt _ _ G). pose proof (total_nonneg (ss t)). lia.
-  - cbn in M. rewrite <- M. apply (run_bound 0 ls (init m 0) t (init_ginv m 0) (Z.le_refl 0) H Hn). cbn. lia.
+  - cbn in M. rewrite <- M. apply (run_bound 0 ls (init m 0 r) t (init_ginv m 0 r) (Z.le_refl 0) H Hn). cbn. lia.
 Qed.
 
 (* surplus connections are closed on accept and never counted; below the maximum the session starts and is counted *)
 Theorem surplus_closed t i t' : step t (Accept i) = Some t' -> maxc t <= cnt t ->
   cnt t' = cnt t /\ ss t' = ss t ++ [rejected] /\ started rejected = false /\ copen rejected = false.
 Proof.
-  intros H Hf. cbn [step] in H. destruct (Nat.eqb i (length (ss t)) && negb (Nat.eqb (pend t) 0)); [|discriminate].
+  intros H Hf. cbn [step] in H. destruct (Nat.eqb i (length (ss t)) && negb (Nat.eqb (pend t) 0) && aloop (al t) && negb (fdlim (al t))); [|discriminate].
   replace (maxc t <=? cnt t) with true in H by (symmetry; apply Z.leb_le; exact Hf). inversion H; subst. cbn. auto.
 Qed.
 Theorem accepted_below_max t i t' : step t (Accept i) = Some t' -> cnt t < maxc t ->
-  cnt t' = cnt t + 1 /\ ss t' = ss t ++ [fresh Tcp true].
+  cnt t' = cnt t + 1 /\ ss t' = ss t ++ [fresh Tcp true 0%nat].
 Proof.
-  intros H Hf. cbn [step] in H. destruct (Nat.eqb i (length (ss t)) && negb (Nat.eqb (pend t) 0)); [|discriminate].
+  intros H Hf. cbn [step] in H. destruct (Nat.eqb i (length (ss t)) && negb (Nat.eqb (pend t) 0) && aloop (al t) && negb (fdlim (al t))); [|discriminate].
   replace (maxc t <=? cnt t) with false in H by (symmetry; apply Z.leb_gt; exact Hf). inversion H; subst. cbn. auto.
 Qed.
 
@@ -159,33 +159,96 @@ Proof.
   rewrite nth_upd_same in En' by (apply nth_error_Some; congruence). inversion En'; subst s'. reflexivity.
 Qed.
 
+(* which handler is told about the exit: the one in charge at that moment (Session.rh, else the manager's); when every
+   UpdateHandler came before anything that can end the session, that is the last one installed *)
+Theorem exit_handler m c0 t i s : reachable m c0 t -> nth_error (ss t) i = Some s -> started s = true ->
+  amb (hx s) = false -> exited s = true -> exit_h (hx s) = hid (hx s).
+Proof. intros R En St A E. exact (i_amb s (reach_sinv _ _ _ _ _ R En St) A E). Qed.
+
+Theorem exit_picks_current_handler s s' d a : SInv s -> sess_step s a = Some (s', d) -> d = true -> exit_h (hx s') = hid (hx s).
+Proof.
+  intros I H D. subst d. destruct (sess_step_inv _ _ _ _ I H) as [_ [_ [E0 E1]]].
+  destruct a; cbn in H.
+  - destruct (Bool.eqb ok (negb (qclosed s))); [|discriminate]. destruct ok; inversion H.
+  - inversion H.
+  - inversion H.
+  - inversion H.
+  - destruct (peer_open s); inversion H.
+  - destruct (peer_open s && negb (peer_reads s)); inversion H.
+  - destruct (peer_open s); [|discriminate]. destruct (recvl s && negb (rcause s) && copen s); inversion H.
+  - destruct (match k with RErr | RTimeout => true | _ => peer_open s end); inversion H.
+  - inversion H.
+  - destruct (negb (sendl s)); [discriminate|]. destruct (q s) as [|x r].
+    + destruct (qclosed s); [|discriminate]. unfold leave_send, quit in H. rewrite E0 in H. inversion H; subst. reflexivity.
+    + destruct (is_nil x); [inversion H|]. destruct (negb (copen s) || wfail s || negb (peer_open s)).
+      * unfold leave_send, quit in H. cbn [exited set_q] in H. rewrite E0 in H. inversion H; subst. reflexivity.
+      * destruct (peer_reads s); inversion H.
+  - destruct (negb (sendl s)); [discriminate|]. destruct (q s) as [|x r]; [discriminate|].
+    destruct (negb (is_nil x) && copen s && negb (wfail s) && negb (peer_open s) && is_tcp (tr s)); inversion H.
+  - destruct (recvl s && (rcause s || negb (copen s))); [|discriminate]. unfold leave_recv, quit in H. rewrite E0 in H.
+    inversion H; subst. reflexivity.
+Qed.
+
+(* the accept loop: a temporary error of Accept below the retry limit does not end it; it ends only by Server.Close
+   or after acceptMaxRetry temporary errors in a row; its errors never touch the count *)
+Theorem accept_loop_ends_only c0 t : (exists m r ls, run (init m c0 r) ls = Some t) -> aloop (al t) = false ->
+  sclosed (al t) = true \/ (amax (al t) <= aretry (al t))%nat.
+Proof. intros (m & r & ls & H) D. destruct (run_ginv c0 ls _ _ (init_ginv m c0 r) H) as [G _]. exact (a_dead _ (g_al _ _ G) D). Qed.
+
+Theorem temporary_error_below_limit t t' : step t AcceptFail = Some t' -> (S (aretry (al t)) < amax (al t))%nat ->
+  aloop (al t') = true /\ aretry (al t') = S (aretry (al t)) /\ cnt t' = cnt t /\ ss t' = ss t /\ pend t' = pend t.
+Proof.
+  intros H L. cbn [step] in H. destruct (negb (Nat.eqb (pend t) 0) && aloop (al t) && fdlim (al t)) eqn:E; [|discriminate].
+  apply andb_prop in E as [E _]. apply andb_prop in E as [_ El].
+  replace (Nat.leb (amax (al t)) (S (aretry (al t)))) with false in H by (symmetry; apply Nat.leb_gt; exact L).
+  inversion H; subst. cbn. auto.
+Qed.
+
+Theorem temporary_error_at_limit t t' : step t AcceptFail = Some t' -> (amax (al t) <= S (aretry (al t)))%nat ->
+  aloop (al t') = false /\ cnt t' = cnt t /\ ss t' = ss t /\ pend t' = pend t.
+Proof.
+  intros H L. cbn [step] in H. destruct (negb (Nat.eqb (pend t) 0) && aloop (al t) && fdlim (al t)); [|discriminate].
+  replace (Nat.leb (amax (al t)) (S (aretry (al t)))) with true in H by (symmetry; apply Nat.leb_le; exact L).
+  inversion H; subst. cbn. auto.
+Qed.
+
 (* ---- non-vacuity ---- *)
-Example demo_flush : exists t s, run (init 0 0)
-    [Start 0 Pipe true; On 0 (Send [1;2] true); On 0 (Send [3] true); On 0 LocalClose; On 0 SendStep; On 0 SendStep; On 0 SendStep; On 0 RecvEnd] = Some t
+Example demo_flush : exists t s, run (init 0 0 3)
+    [Start 0 Pipe true 0; On 0 (Send [1;2] true); On 0 (Send [3] true); On 0 LocalClose; On 0 SendStep; On 0 SendStep; On 0 SendStep; On 0 RecvEnd] = Some t
   /\ nth_error (ss t) 0 = Some s /\ stable t = true /\ clean s = true /\ lclosed s = true /\ inbox s = [1;2;3] /\ onexit s = 1%nat /\ cnt t = 0.
 Proof. eexists. eexists. split; [vm_compute; reflexivity|]. vm_compute. repeat split; reflexivity. Qed.
 
-Example demo_race : exists t s, run (init 0 0)
-    [Start 0 Tcp true; On 0 (Send [7] true); On 0 (RecvFault RPanic); On 0 LocalClose; On 0 RecvEnd; On 0 SendStep] = Some t
+Example demo_race : exists t s, run (init 0 0 3)
+    [Start 0 Tcp true 0; On 0 (Send [7] true); On 0 (RecvFault RPanic); On 0 LocalClose; On 0 RecvEnd; On 0 SendStep] = Some t
   /\ nth_error (ss t) 0 = Some s /\ stable t = true /\ must_end s = true /\ inbox s = [] /\ onexit s = 1%nat /\ cnt t = 0.
 Proof. eexists. eexists. split; [vm_compute; reflexivity|]. vm_compute. repeat split; reflexivity. Qed.
 
-Example demo_accept : exists t, run (init 2 0)
+Example demo_accept : exists t, run (init 2 0 3)
     [Arrive 0; Arrive 1; Arrive 2; Accept 0; Accept 1; Accept 2; On 0 PeerClose; On 0 RecvEnd; On 0 SendStep; Arrive 3; Arrive 4; Accept 3; Accept 4] = Some t
   /\ cnt t = 2 /\ map started (ss t) = [true; true; false; true; false].
 Proof. eexists. split; [vm_compute; reflexivity|]. vm_compute. split; reflexivity. Qed.
 
 (* a zero-length payload is popped and skipped: the session stays up and what is queued behind it is written *)
-Example empty_payload_skipped : exists t s, run (init 0 0)
-    [Start 0 Pipe true; On 0 (Send [1] true); On 0 (Send [] true); On 0 (Send [2] true); On 0 LocalClose;
+Example demo_handler : exists t s, run (init 0 0 3)
+    [Start 0 Pipe true 1; On 0 (SetHandler 2); On 0 LocalClose; On 0 SendStep; On 0 RecvEnd; On 0 (SetHandler 3)] = Some t
+  /\ nth_error (ss t) 0 = Some s /\ stable t = true /\ onexit s = 1%nat /\ exit_h (hx s) = 2%nat /\ hid (hx s) = 3%nat.
+Proof. eexists. eexists. split; [vm_compute; reflexivity|]. vm_compute. repeat split; reflexivity. Qed.
+
+Example demo_accept_errors : exists t, run (init 1 0 2)
+    [FdExhaust; Arrive 0; AcceptFail; FdRestore; Accept 0; FdExhaust; Arrive 1; AcceptFail; AcceptFail] = Some t
+  /\ stable t = true /\ cnt t = 1 /\ pend t = 1%nat /\ aloop (al t) = false /\ length (ss t) = 1%nat.
+Proof. eexists. split; [vm_compute; reflexivity|]. vm_compute. repeat split; reflexivity. Qed.
+
+Example empty_payload_skipped : exists t s, run (init 0 0 3)
+    [Start 0 Pipe true 0; On 0 (Send [1] true); On 0 (Send [] true); On 0 (Send [2] true); On 0 LocalClose;
      On 0 SendStep; On 0 SendStep; On 0 SendStep; On 0 SendStep; On 0 RecvEnd] = Some t
   /\ nth_error (ss t) 0 = Some s /\ stable t = true /\ accepted s = [[1]; []; [2]] /\ inbox s = [1; 2] /\ onexit s = 1%nat /\ clean s = true.
 Proof. eexists. eexists. split; [vm_compute; reflexivity|]. vm_compute. repeat split; reflexivity. Qed.
 
 (* the send loop before repair 225387c violates the flush clause: only Sends and a local Close were issued, the peer
    reads, the session is over at quiescence - and the payload accepted behind the zero-length one was never written *)
-Theorem prefix_flush_refuted : exists t s, run_prefix (init 0 0)
-    [Start 0 Pipe true; On 0 (Send [1] true); On 0 (Send [] true); On 0 (Send [2] true); On 0 LocalClose;
+Theorem prefix_flush_refuted : exists t s, run_prefix (init 0 0 3)
+    [Start 0 Pipe true 0; On 0 (Send [1] true); On 0 (Send [] true); On 0 (Send [2] true); On 0 LocalClose;
      On 0 SendStep; On 0 SendStep; On 0 RecvEnd] = Some t
   /\ nth_error (ss t) 0 = Some s /\ stable t = true /\ clean s = true /\ lclosed s = true /\ peer_reads s = true /\ copen s = false
   /\ accepted s = [[1]; []; [2]] /\ inbox s = [1] /\ inbox s <> concat (accepted s).
